@@ -786,6 +786,8 @@ func (c *c16) stackCheck(tier string) {
 			hasPrefix := false
 			var caches []stypes.CacheKVStore
 			var tb bytes.Buffer
+			var meter stypes.GasMeter
+			var wantGas uint64
 			for li := 0; li < len(perm); li++ { // perm[0] is the innermost wrapper
 				l := perm[li]
 				byMethod = pm.byMethod
@@ -812,7 +814,8 @@ func (c *c16) stackCheck(tier string) {
 					st = prefix.NewStore(st, append(make([]byte, 0, 32), pfx...))
 					hasPrefix = true
 				case "gas":
-					st = gaskv.NewStore(st, stypes.NewInfiniteGasMeter(), stypes.KVGasConfig())
+					meter = stypes.NewInfiniteGasMeter()
+					st = gaskv.NewStore(st, meter, stypes.KVGasConfig())
 				case "trace":
 					st = tracekv.NewStore(st, &tb, nil)
 				case "cache":
@@ -825,12 +828,26 @@ func (c *c16) stackCheck(tier string) {
 			if hasPrefix {
 				p = pfx
 			}
+			lpos := map[layer]int{}
+			for i, l := range perm {
+				lpos[l] = i + 1
+			}
+			// the prefix wrapper sits above the gas / trace wrapper: what those see is what the prefix
+			// store does to its parent ("can neither read nor write any other key")
+			traceBelowPrefix := lpos["trace"] > 0 && lpos["prefix"] > lpos["trace"]
+			// gas is comparable with the cost table when no cache above the gas wrapper absorbs accesses
+			gasBelowPrefix := lpos["gas"] > 0 && lpos["prefix"] > lpos["gas"] && !(lpos["cache"] > lpos["gas"])
 			for step, oi := range prog {
 				o := ops[oi]
 				view := kvMap{}
 				for k, v := range model {
 					if bytes.HasPrefix([]byte(k), p) {
 						view[k[len(p):]] = v
+					}
+				}
+				if gasBelowPrefix {
+					for _, ch := range modelCharges(view, o, stypes.KVGasConfig()) {
+						wantGas += ch.amt
 					}
 				}
 				want := modelSop(view, o)
@@ -845,6 +862,25 @@ func (c *c16) stackCheck(tier string) {
 					c.fail("C16|stack|result", fmt.Sprintf("stack %v (innermost first)%s, program %s: step %d %s = {%s}, model {%s}", perm, how(byMethod), progString(ops, prog), step, o, got, want),
 						map[string]interface{}{"by_method": byMethod, "stack": perm, "program": progString(ops, prog)})
 					return
+				}
+			}
+			if gasBelowPrefix && meter.GasConsumed() != wantGas {
+				c.fail("C16|stack|gas-through-prefix", fmt.Sprintf("stack %v%s, program %s: the gas wrapper below the prefix store consumed %d, the cost table gives %d for these operations on the prefix view", perm, how(pm.byMethod), progString(ops, prog), meter.GasConsumed(), wantGas),
+					map[string]interface{}{"by_method": pm.byMethod, "stack": perm, "program": progString(ops, prog)})
+				return
+			}
+			if traceBelowPrefix {
+				for _, ln := range strings.Split(strings.TrimSpace(tb.String()), "\n") {
+					var tl traceLine
+					if ln == "" || json.Unmarshal([]byte(ln), &tl) != nil || tl.Key == "" {
+						continue
+					}
+					k, err := base64.StdEncoding.DecodeString(tl.Key)
+					if err == nil && !bytes.HasPrefix(k, pfx) {
+						c.fail("C16|stack|foreign-key-accessed-through-prefix", fmt.Sprintf("stack %v%s, program %s: the trace wrapper below the prefix store recorded %s of key %X, which does not start with the prefix %X", perm, how(pm.byMethod), progString(ops, prog), tl.Operation, k, pfx),
+							map[string]interface{}{"by_method": pm.byMethod, "stack": perm, "program": progString(ops, prog)})
+						return
+					}
 				}
 			}
 			for _, cs := range caches {
@@ -876,7 +912,7 @@ func C16(tier string) int {
 	run.Set("traces_validated_against_impl", c.eval)
 	run.Set("distinct_nontrivial", c.nontriv)
 	run.Set("by_part", c.kinds)
-	run.Set("rule", "prefix: every program of L ops (4 keys incl. empty/00/FF, 25 start/end pairs x 2 directions) on prefixes {01, 01FF, FF, FFFF, 00, empty} over parents preloaded with subsets of the boundary key set; gas: every program of L ops, re-run under every limit one below/at/above every cumulative charge and pre-charged to overflow at every charge, both meter kinds; trace: every program of L ops, decoded JSON lines compared with the operation list; stackings: every ordered selection of {prefix,gas,trace,cache}, built with the constructors and with the wrappers' own CacheWrap / CacheWrapWithTrace methods, every program of 3 ops. evaluations = program runs (a gas program counts once per limit); states = distinct outcomes (part, results of every operation, final content of the wrapped store); transitions = operations executed on the real wrappers; distinct_nontrivial = programs (distinct by construction within their part and configuration) in which a get/has/iteration follows a set/delete")
+	run.Set("rule", "prefix: every program of L ops (4 keys incl. empty/00/FF, 25 start/end pairs x 2 directions) on prefixes {01, 01FF, FF, FFFF, 00, empty} over parents preloaded with subsets of the boundary key set; gas: every program of L ops, re-run under every limit one below/at/above every cumulative charge and pre-charged to overflow at every charge, both meter kinds; trace: every program of L ops, decoded JSON lines compared with the operation list; stackings: every ordered selection of {prefix,gas,trace,cache}, built with the constructors and with the wrappers' own CacheWrap / CacheWrapWithTrace methods, every program of 3 ops; where the prefix store sits above the gas / trace wrapper, the gas consumed equals the cost table applied to the prefix view and no traced key lies outside the prefix. evaluations = program runs (a gas program counts once per limit); states = distinct outcomes (part, results of every operation, final content of the wrapped store); transitions = operations executed on the real wrappers; distinct_nontrivial = programs (distinct by construction within their part and configuration) in which a get/has/iteration follows a set/delete")
 	run.Sample(map[string]interface{}{"part": "prefix", "prefix": "01FF", "preload": []string{"01FF", "01FFFF", "02"}, "program": "set(\"\\xff\",\"v\"); iter(nil,nil,desc)"})
 	run.Sample(map[string]interface{}{"part": "gas", "program": "get(\"a\"); iter(nil,nil,asc); set(\"b\",\"0123456789\")", "limits": "each cumulative charge -1/0/+1"})
 	run.Assume("shipped KVGasConfig is the documented cost table; iterators are charged at creation-if-valid and at every Next-while-valid with the current value's length (gaskv documentation)",
